@@ -389,6 +389,10 @@ def post_process_findings(banner: Optional[Banner], algs: Algorithms, client_aud
 
         return ret
 
+    def _is_cbc_cipher(cipher: str) -> bool:
+        '''Returns True if the cipher name denotes a CBC mode cipher (i.e.: "aes128-cbc", "3des-cbc@ssh.com", "des-cbc-ssh1").'''
+        return "-cbc" in cipher
+
     def _get_cbc_ciphers_enabled(algs: Algorithms) -> List[str]:
         '''Returns a list of CBC ciphers that the peer supports.'''
         ret = []
@@ -396,7 +400,7 @@ def post_process_findings(banner: Optional[Banner], algs: Algorithms, client_aud
         if algs.ssh2kex is not None:
             ciphers_supported = algs.ssh2kex.client.encryption if client_audit else algs.ssh2kex.server.encryption
             for cipher in ciphers_supported:
-                if cipher.endswith("-cbc") or cipher.endswith("-cbc@openssh.org") or cipher.endswith("-cbc@ssh.com") or cipher == "rijndael-cbc@lysator.liu.se":
+                if _is_cbc_cipher(cipher):
                     ret.append(cipher)
 
         return ret
@@ -406,7 +410,7 @@ def post_process_findings(banner: Optional[Banner], algs: Algorithms, client_aud
         ret = []
 
         for cipher in db["enc"]:
-            if (cipher.endswith("-cbc") or cipher.endswith("-cbc@openssh.org") or cipher.endswith("-cbc@ssh.com") or cipher == "rijndael-cbc@lysator.liu.se") and cipher not in _get_cbc_ciphers_enabled(algs):
+            if _is_cbc_cipher(cipher) and cipher not in _get_cbc_ciphers_enabled(algs):
                 ret.append(cipher)
 
         return ret
